@@ -87,6 +87,54 @@ pub fn murmur3_x64_128(data: &[u8], seed: u64) -> (u64, u64) {
     (h1, h2)
 }
 
+fn inv64(a: u64) -> u64 {
+    // multiplicative inverse of an odd number modulo 2^64 (Newton iteration)
+    let mut x = a;
+    for _ in 0..6 {
+        x = x.wrapping_mul(2u64.wrapping_sub(a.wrapping_mul(x)));
+    }
+    x
+}
+
+fn unfmix64(mut k: u64) -> u64 {
+    k ^= k >> 33;
+    k = k.wrapping_mul(inv64(0xc4ceb9fe1a85ec53));
+    k ^= k >> 33;
+    k = k.wrapping_mul(inv64(0xff51afd7ed558ccd));
+    k ^= k >> 33;
+    k
+}
+
+/// The 16-byte input whose MurmurHash3_x64_128 digest under `seed` is exactly `(h1, h2)`
+/// (the one-block algorithm is a bijection). Verified by hashing it forward.
+pub fn murmur3_preimage16(h1: u64, h2: u64, seed: u64) -> [u8; 16] {
+    const C1: u64 = 0x87c37b91114253d5;
+    const C2: u64 = 0x4cf5ad432745937f;
+    // undo the final additions and the finalization mix
+    let f2 = h2.wrapping_sub(h1);
+    let f1 = h1.wrapping_sub(f2);
+    let b1 = unfmix64(f1);
+    let b2 = unfmix64(f2);
+    // undo h1 += h2; h2 += h1 and the length xor
+    let g2 = b2.wrapping_sub(b1);
+    let g1 = b1.wrapping_sub(g2);
+    let e1 = g1 ^ 16;
+    let e2 = g2 ^ 16;
+    // undo the block: h2 = (rotl(seed ^ k2', 31) + h1) * 5 + c
+    let m2 = e2.wrapping_sub(0x38495ab5).wrapping_mul(inv64(5)).wrapping_sub(e1).rotate_right(31);
+    let k2p = m2 ^ seed;
+    let k2 = k2p.wrapping_mul(inv64(C1)).rotate_right(33).wrapping_mul(inv64(C2));
+    // h1 = (rotl(seed ^ k1', 27) + seed) * 5 + c
+    let m1 = e1.wrapping_sub(0x52dce729).wrapping_mul(inv64(5)).wrapping_sub(seed).rotate_right(27);
+    let k1p = m1 ^ seed;
+    let k1 = k1p.wrapping_mul(inv64(C2)).rotate_right(31).wrapping_mul(inv64(C1));
+    let mut out = [0u8; 16];
+    out[..8].copy_from_slice(&k1.to_le_bytes());
+    out[8..].copy_from_slice(&k2.to_le_bytes());
+    assert_eq!(murmur3_x64_128(&out, seed), (h1, h2), "preimage construction is wrong");
+    out
+}
+
 const P1: u64 = 11400714785074694791;
 const P2: u64 = 14029467366897019727;
 const P3: u64 = 1609587929392839161;
